@@ -160,6 +160,16 @@ CHECKS = {
         "note": "Trusted: Python ast, E1 resolver, numpy slicing, int(x/2) = floor(x/2) for non-negative extents.",
         "technique": "static analysis: abstract evaluation to polynomial normal forms; exhaustive parity-domain case analysis of floor-division forms; normalised bounds comparison; wiring rule",
     },
+    "C12": {
+        "text": "Decides the structural clauses of translation covariance for all masks, scales and origin pairs: (G1) at every one of the ~170 calls of a coordinate-origin callable (the 67 constructors / utils with an `origin` parameter), whenever the "
+                "parent's geometry or the caller's own origin parameter is in scope, `origin` is passed on - omission (default (0,0)) is a violation; the only exceptions are single named sites with a reason (PSF kernels, layout windows, 1-D projections, "
+                "an escape-filtered temporary) and a few sites outside the entry points C12 names, printed as NOTE lines; (G2) the origin passed on is point-kinded: X.origin, an origin parameter, X.mask_centre, a midpoint of two coordinates, or a tuple "
+                "whose k-th element is origin component k plus component-k displacements (axis purity); (covariance) for the util layer, substituting origin -> origin + d (and coordinate inputs -> inputs + d) in the computed canonical forms shifts every "
+                "coordinate output by exactly d and leaves every index output unchanged - grid from mask, over-sampled grid, scaled<->pixel conversions, Geometry2D extent / minima / maxima; (derived) mask centre, derived grids, sub-grids, mesh-pixel "
+                "counts and radial projections re-pass the parent's shape, scales and origin. Not decided: covariance of quantities that pass through scipy (griddata, Delaunay), numerical equality.",
+        "note": "Trusted: Python ast, E1 resolver (a call it cannot resolve to a project callable is not a G1 site; counted), reference notion of point / vector kinds.",
+        "technique": "static analysis: who-passes-what rule over every resolved call of an origin-bearing callable; point / vector kind checking with axis purity; translation substitution on polynomial normal forms",
+    },
 }
 
 NOT_APPLICABLE = {f"C{n:02d}": PENDING for n in range(1, 21) if f"C{n:02d}" not in CHECKS}
